@@ -11,7 +11,7 @@ CHECKS = {
    note="all-or-nothing underlying writer; std BufWriter as modelled (bound by replay); unbounded capacities only by sampling (drivers up to 1432) plus, in the thorough tier, the Apalache inductive invariant of WriterInt.tla when present",
    tech="TLC exhaustive model checking of an implementation model x property monitor; spec->code replay; code->spec trace validation"),
  "C06": dict(engine="writer", cat=MC, ref="DESIGN.md 6/C06",
-   text="same engine as C05; the monitor keeps the list of acknowledged-but-unwritten metrics and requires every datagram to be exactly that list (plus possibly the current metric), emit Ok(n) to report the metric's length, flush Ok to leave nothing pending and drop to write what is left; checked exhaustively on the model and on every recorded trace of the real code.",
+   text="same engine as C05; the monitor keeps the list of acknowledged-but-unwritten metrics and requires every datagram to be exactly that list (plus possibly the current metric), emit Ok(n) to report the metric's length, flush Ok to leave nothing pending and drop to write what is left; checked exhaustively on the model and on every recorded trace of the real code - the scripted writer, the spy sink's channel, the real UDP / Unix socket adapters on loopback sockets (stalling and vanishing receivers, retried flushes after failures) and sinks shared between threads (events in lock order).",
    note="as C05; client.flush / queuing flush delegations are covered by the stack engine when built",
    tech="TLC exhaustive model checking + replay + trace validation against WriterProp conservation rules"),
  "C07": dict(engine="writer", cat=MC, ref="DESIGN.md 6/C07",
@@ -31,7 +31,7 @@ CHECKS = {
    note="as C08; 'eventually' = within 10 s on the real code",
    tech="TLC liveness checking + scheduled replay + trace validation"),
  "C10": dict(engine="queue", cat=MC, ref="DESIGN.md 6/C10",
-   text="same engine; invariant |chan| <= capacity and the rule that try_send's result depends on room only, in the model exactly; on free-running traces with the slack of one dequeued-but-not-yet-handed-over metric (sound bounds MaxQ/MinQ), exact comparison in scheduled replays; wrapped sink thread id differs from every caller's; emit results never carry wrapped-sink errors; producers must all return while the wrapped sink is held blocked.",
+   text="same engine; invariant |chan| <= capacity and the rule that try_send's result depends on room only, in the model exactly; on free-running traces with the slack of one dequeued-but-not-yet-handed-over metric (sound bounds MaxQ/MinQ), exact comparison in scheduled replays; wrapped sink thread id differs from every caller's; emit results never carry wrapped-sink errors; producers must all return while the wrapped sink is held blocked; every entry to the wrapped sink (emit, flush, stats) is logged with its thread and must never happen on a thread that is inside emit (model: Delegate action, mutant flush-in-emit refuted); 120 aligned-race rounds per quick run (worker held inside the wrapped sink, one free slot, 2-3 pinned producers released at a common instant inside the hook that precedes the room check) with the rule that nothing beyond the capacity is queued while the worker is busy.",
    note="as C08",
    tech="TLC model checking + scheduled replay + trace validation"),
  "C11": dict(engine="queue", cat=MC, ref="DESIGN.md 6/C11",
@@ -39,7 +39,7 @@ CHECKS = {
    note="as C08",
    tech="TLC model checking + scheduled replay + trace validation"),
  "C15": dict(engine="queue", cat=MC, ref="DESIGN.md 6/C15",
-   text="same engine; try_send/incr_submitted and recv/incr_drained are separate model steps and a sampler performs the two loads of queued() separately: TLC shows the counters exact at quiescence and queued() never wrapping in every interleaving; on the real code counters are compared with the model after every replayed step, a sampling thread runs in the stress scenarios, and quiescent counters must equal accepted / delivered counts.",
+   text="same engine; try_send/incr_submitted and recv/incr_drained are separate model steps and a sampler performs the two loads of queued() separately: TLC shows the counters exact at quiescence and queued() never wrapping in every interleaving; on the real code counters are compared with the model after every replayed step, a sampling thread runs in the stress scenarios, quiescent counters must equal accepted / delivered counts, 8-producer contention phases and an aligned-race phase (pinned producers released together just before the submitted increment) expose non-atomic updates, and 'stalled increment' rounds hold a producer between try_send and the increment while a sampler reads (drained > submitted for a moment: queued() must stay 0 and must not panic).",
    note="as C08",
    tech="TLC model checking + scheduled replay with per-step counter comparison + trace validation"),
  "C16": dict(engine="queue", cat=MC, ref="DESIGN.md 6/C16",
@@ -71,7 +71,7 @@ CHECKS = {
    note="one process per configuration; 10 processes quick, >120 thorough",
    tech="TLC-checked shapes and protocol; per-process replay; trace validation"),
  "C20": dict(engine="c20", cat="exploration", ref="DESIGN.md 6/C20, 7",
-   text="Panic is not an action of any model: every harness call runs under catch_unwind with overflow checks and debug assertions on, and any panic observed in the hostile enumerations of all engines (hostile constructor scenarios: capacities 0/1, empty/long terminators, unusable addresses and paths, tiny queues; client calls with empty/long/non-ASCII/delimiter strings, NaN/inf/-0.0, u64::MAX, i64::MIN, maximal Durations, empty and 100 000-element lists; writer and queue stress) is flagged C20 by the TLC monitors, as is an invalid value that is not reported as an error or a valid one that is not sent. The arithmetic guards (written <= capacity so capacity - written cannot underflow; queued() never wraps) are invariants checked by TLC on Writer.tla / Queue.tla.",
+   text="Panic is not an action of any model: every harness call runs under catch_unwind with overflow checks and debug assertions on, and any panic observed in the hostile enumerations of all engines (hostile constructor scenarios: capacities 0/1, empty/long terminators, unusable addresses and paths, tiny queues; client calls with empty/long/non-ASCII/delimiter strings, NaN/inf/-0.0, u64::MAX, i64::MIN, maximal Durations, empty and 100 000-element lists; writer and queue stress incl. the empty string, delimiters, multi-byte and 3 000-byte strings emitted on the queuing sink itself; every sink kind on real sockets; sinks shared between threads) is flagged C20 by the TLC monitors, as is an invalid value that is not reported as an error or a valid one that is not sent. The arithmetic guards (written <= capacity so capacity - written cannot underflow; queued() never wraps) are invariants checked by TLC on Writer.tla / Queue.tla.",
    note="'for all inputs' is not decided: exploration over the hostile classes the specifications name plus seeded random instantiation",
    tech="spec-driven hostile enumeration under catch_unwind judged by the TLC monitors; arithmetic guards as TLC invariants"),
  "C12": dict(engine="sock", cat=MC, ref="DESIGN.md 6/C12",
